@@ -2,7 +2,10 @@
 
 Implementation: ``eups.table.Table(file, topProduct).actions(flavor, setupType)`` -> [(cmd, args, extra)] and
 ``eups.VersionParser.VersionParser(text).eval()`` for every condition on its own.
-Model: lean/EupsModel/Model/{Cond,TableParse}.lean through the driver handler "c11" (ops "table", "cond").
+Further observables: ``Table._actions`` (every chain, unselected branches too), the lines ``Table._rewrite`` returns,
+``Table.getDeclareOptions(flavor, setupType)``.
+Model: lean/EupsModel/Model/{Cond,TableParse}.lean through the driver handler "c11" (ops "table", "cond", "declopts",
+"parse", "rewrite").
 Oracle (ii): the generator builds the table as a syntax tree (commands, if / else-if / else chains, boolean
 expressions, legacy Flavor= groups), renders it with random layout, and computes what the tree denotes for a
 flavor and a list of setup types *itself* (truth tables, first true branch, documented command aliases) — the
@@ -23,7 +26,10 @@ RULE = ("cases = (table text, flavor, setup types): tables of 1-8 items (command
         "(lines dropped, duplicated, inserted; wrong arity; operators outside the property's grammar); every condition "
         "also on its own through VersionParser; exhaustive small enumerations (all chain shapes of <= 3 branches with "
         "empty / non-empty branches and else; all conditions of depth <= 1, thorough: <= 2, over 2 flavors x 2 types); each "
-        "table is evaluated for every flavor it mentions plus an unmentioned one, with TYPE absent / one / two types.  "
+        "table is evaluated for every flavor it mentions plus an unmentioned one, with TYPE absent / one / two types; "
+        "chains of 6-9 branches (3 %), declareOptions written as options (k=v, k = v, quoted) whose pairs the generator "
+        "knows; a lone quoted argument with escaped quotes / commas / runs of blanks, padded or not, escaped quotes next to "
+        "the opening / closing quote and in the first / last argument (floor of 10 cases per shape).  "
         "A case is non-trivial when its table has a conditional chain, a legacy group or a quoted argument, or is an "
         "enumerated condition batch; distinct = distinct (text, flavor, types) digests")
 TRUSTED = ["CPython `re` on the patterns of table.py / VersionParser.py (hand-translated to list functions in the model; "
@@ -70,6 +76,14 @@ def split_words(s):
     return out
 
 
+def whole_list_quoted(c):
+    """The classic spelling `cmd("word word …")`: the argument text is exactly one pair of quotes with no quote
+    (escaped or not) between them.  With an escaped quote inside, or blanks between the parentheses and the quotes,
+    the quoted string is one argument like any other."""
+    a = c["args"]
+    return len(a) == 1 and a[0]["q"] and '"' not in a[0]["v"] and not c["pad"]
+
+
 def denote_cmd(c):
     """What a written command denotes: None (nothing) or {"cmd", "args", "extra"}."""
     name = c["name"]
@@ -77,7 +91,7 @@ def denote_cmd(c):
         return None                       # unknown command / sourceRequired: skipped by design
     cmd, extra = ALIASES[name]
     written = c["args"]
-    if len(written) == 1 and written[0]["q"]:
+    if whole_list_quoted(c):
         args = split_words(written[0]["v"])      # quotes around the whole list: the list of words
     else:
         args = [a["v"] for a in written]
@@ -127,12 +141,64 @@ def denote_table(items, flavor, types):
     return out
 
 
+def selected_cmds(items, flavor, types):
+    out = []
+    for it in items:
+        if it["k"] == "cmd":
+            out.append(it["c"])
+        elif it["k"] == "chain":
+            chosen = None
+            for br in it["branches"]:
+                if denote_cond(br["cond"], flavor, types):
+                    chosen = br["cmds"]
+                    break
+            if chosen is None:
+                chosen = it["els"] if it["els"] is not None else []
+            out += chosen
+    return out
+
+
+def denote_opts(items, flavor, types):
+    """The options the declareOptions commands of the selected branches declare, as sorted [key, value] pairs (a
+    later option replaces an earlier one with the same key); None when one of them is not written as options."""
+    d = {}
+    for c in selected_cmds(items, flavor, types):
+        if c["name"] != "declareOptions":
+            continue
+        if "opts" not in c:
+            return None
+        for k, v in c["opts"]:
+            d[k] = v
+    return sorted([k, v] for k, v in d.items())
+
+
 # ---- generator -------------------------------------------------------------------------------------
 
 PLAIN = ["a", "b/c", "${PRODUCT_DIR}/bin", "x.y", "-j", "1.2", "FOO_BAR", ">=", "2.0", "/opt/p-1/lib", "lib64", "$?{X}/y",
          "[>=", "1.0]", "a:b", "v1_2+3", "(x)"]
 VARNAMES = ["PATH", "LD_LIBRARY_PATH", "FOO", "PYTHONPATH", "X_Y"]
 PRODS = ["python", "cfitsio", "afw", "doxygen", "base"]
+OPT_KEYS = ["flavor", "name", "version", "x_y"]
+OPT_VALS = ["NULL", "Linux", "foo", "1.2", "a.b"]
+
+
+def gen_escaped(rng):
+    """The value of a quoted argument that holds double quotes (written \\"), alone or with commas / runs of blanks."""
+    w = lambda: rng.choice(PLAIN)  # noqa
+    shape = rng.choice(["mid", "mid_commas", "mid_commas", "end", "start", "only", "two", "end_comma"])
+    if shape == "mid":
+        return 'say "%s" now' % w()
+    if shape == "mid_commas":
+        return 'Set %s=1, or run "make  %s, slowly" first' % (w(), w())
+    if shape == "end":
+        return 'run  "%s %s"' % (w(), w())              # an escaped quote next to the closing quote
+    if shape == "end_comma":
+        return '%s, "%s"' % (w(), w())
+    if shape == "start":
+        return '"%s", then  %s' % (w(), w())            # … next to the opening quote
+    if shape == "only":
+        return rng.choice(['"', '""', '","'])
+    return '"%s" "%s"' % (w(), w())
 
 
 def gen_arg(rng, allow_escape=True):
@@ -147,7 +213,7 @@ def gen_arg(rng, allow_escape=True):
     elif r < 0.94:
         inner = rng.choice(PLAIN) + "," + rng.choice(PLAIN)
     elif allow_escape:
-        inner = 'say "%s" now' % rng.choice(PLAIN)
+        inner = gen_escaped(rng)
     else:
         inner = rng.choice(PLAIN)
     r2 = rng.random()
@@ -164,6 +230,7 @@ def gen_cmd(rng):
                        "pathSet", "unsetupRequired", "unsetupOptional", "declareOptions", "prodDir", "setupEnv",
                        "envUnset", "unsetenv", "pathRemove", "sourceRequired", "frobnicate"])
     seps = None
+    c_opts = None
     if name in ("envPrepend", "envAppend", "pathPrepend", "pathAppend"):
         n = rng.choice([2, 2, 3])
         args = [{"v": rng.choice(VARNAMES), "q": False}, gen_arg(rng)]
@@ -191,24 +258,53 @@ def gen_cmd(rng):
             seps = [" "] * (len(args) - 1)
     elif name == "addAlias":
         args = [{"v": rng.choice(["ll", "longls", "gs"]), "q": False}] + [gen_arg(rng) for _ in range(rng.randint(1, 3))]
+    elif name == "declareOptions" and rng.random() < 0.75:
+        # options as documented: k=v, k = v, k= v, "k = v" — the generator knows the pairs (oracle (ii))
+        opts = [(rng.choice(OPT_KEYS), rng.choice(OPT_VALS)) for _ in range(rng.randint(1, 3))]
+        args, seps = [], []
+        for k, v in opts:
+            style = rng.choice(["k=v", "k=v", "k = v", "k =v", "k= v", "q", "q2"])
+            ws = {"k=v": [k + "=" + v], "k = v": [k, "=", v], "k =v": [k, "=" + v], "k= v": [k + "=", v]}.get(style)
+            if ws is None:
+                inner = k + rng.choice([" = ", "=", " =", "  =\t"]) + v
+                new = [{"v": inner, "q": True}]
+            else:
+                new = [{"v": w, "q": False} for w in ws]
+            for a in new:
+                if args:
+                    seps.append(rng.choice([", ", " ", ",", " , "]) if a is new[0] else rng.choice([" ", "  "]))
+                args.append(a)
+        if rng.random() < 0.1:                                   # a word without a value at the end: no pair
+            seps.append(", ")
+            args.append({"v": rng.choice(OPT_KEYS), "q": False})
+        if len(args) == 1 and args[0]["q"]:
+            seps = []
+        c_opts = opts
     elif name in ("print", "declareOptions", "frobnicate", "sourceRequired"):
         args = [gen_arg(rng) for _ in range(rng.randint(1, 3))]
         if name == "print" and rng.random() < 0.3:
             args[0] = {"v": rng.choice(["stderr", "stdout", "stdwarn"]), "q": False}
+        elif name == "print" and rng.random() < 0.35:
+            # the whole list is one quoted string: with escaped quotes inside (one argument), or without (a word list)
+            args = [{"v": gen_escaped(rng) if rng.random() < 0.7 else "%s, %s  %s" % tuple(rng.choice(PLAIN) for _ in range(3)), "q": True}]
+        elif rng.random() < 0.15:
+            # escaped quotes in the first / the last argument of several
+            args[rng.choice([0, -1])] = {"v": gen_escaped(rng), "q": True}
     elif name in ("prodDir", "setupEnv"):
         args = []
     else:   # envUnset family
         args = [{"v": rng.choice(["PRODUCT_DIR", PDIR, "PATH", "BAR"]), "q": False}]
-    # a lone quoted argument means "the whole list is quoted": an escaped quote inside is outside the grammar
-    if len(args) == 1 and args[0]["q"] and '"' in args[0]["v"]:
-        args[0]["v"] = args[0]["v"].replace('"', "")
     if seps is None:
         seps = [rng.choice([", ", ",", " , ", ", ", " ", ",  "]) for _ in range(max(0, len(args) - 1))]
     case = rng.random()
     spelled = name if case < 0.6 else name.lower() if case < 0.8 else name.upper() if case < 0.9 else name[0].upper() + name[1:]
-    pad = len(args) > 0 and not (len(args) == 1 and args[0]["q"]) and rng.random() < 0.25
-    return {"name": name, "spelled": spelled, "args": args, "seps": seps, "pad": pad,
-            "gap": rng.choice(["", "", "", " "]), "semi": rng.choice(["", "", ";", " ;", "; "])}
+    # (blanks between the parentheses and a lone quoted string make it an ordinary argument: `^"…"$` is anchored)
+    pad = len(args) > 0 and rng.random() < (0.12 if len(args) == 1 and args[0]["q"] else 0.25)
+    c = {"name": name, "spelled": spelled, "args": args, "seps": seps, "pad": pad,
+         "gap": rng.choice(["", "", "", " "]), "semi": rng.choice(["", "", ";", " ;", "; "])}
+    if c_opts is not None:
+        c["opts"] = [list(o) for o in c_opts]
+    return c
 
 
 def gen_cond(rng, depth, flavors, types):
@@ -230,7 +326,10 @@ def gen_table(rng):
             items.append({"k": "cmd", "c": gen_cmd(rng)})
         else:
             branches = []
-            for _b in range(rng.choice([1, 1, 2, 2, 3, 4, 5])):
+            nb = rng.choice([1, 1, 2, 2, 3, 4, 5])
+            if rng.random() < 0.03:
+                nb = rng.choice([6, 7, 8, 9])            # getDeclareOptions treats chains of more than 7 branches apart
+            for _b in range(nb):
                 d = rng.choice([0, 0, 1, 1, 2, 3])
                 ncmd = rng.choice([0, 1, 1, 2, 3]) if rng.random() < 0.5 else rng.randint(1, 2)
                 branches.append({"cond": gen_cond(rng, d, flavors, types), "cmds": [gen_cmd(rng) for _ in range(ncmd)]})
@@ -350,14 +449,36 @@ def table_features(items):
                 f.add("empty_branch")
             for b in it["branches"]:
                 f.add("cond_depth=%d" % cond_depth(b["cond"]))
+            if len(it["branches"]) >= 8:
+                f.add("branches>=8")
         cmds = [it["c"]] if it["k"] == "cmd" else sum([b["cmds"] for b in it["branches"]], []) + (it["els"] or [])
         for c in cmds:
+            if "opts" in c:
+                f.add("declare_options")
             if any(a["q"] for a in c["args"]):
                 f.add("quoted_arg")
             if len(c["args"]) > 1 and c["args"][0]["q"] and c["args"][-1]["q"]:
                 f.add("first_and_last_quoted")
-            if len(c["args"]) == 1 and c["args"][0]["q"]:
+            if whole_list_quoted(c):
                 f.add("whole_list_quoted")
+                if "," in c["args"][0]["v"] or "  " in c["args"][0]["v"]:
+                    f.add("whole_list_quoted_commas_or_blank_runs")
+            if len(c["args"]) == 1 and c["args"][0]["q"]:
+                v = c["args"][0]["v"]
+                if c["pad"]:
+                    f.add("lone_quoted_padded")
+                if '"' in v:
+                    f.add("lone_quoted_with_escape")
+                    if "," in v or "  " in v:
+                        f.add("lone_quoted_with_escape_and_commas_or_blank_runs")
+            if len(c["args"]) > 1 and c["args"][0]["q"] and '"' in c["args"][0]["v"]:
+                f.add("escape_in_first_arg")
+            if len(c["args"]) > 1 and c["args"][-1]["q"] and '"' in c["args"][-1]["v"]:
+                f.add("escape_in_last_arg")
+            if any(a["q"] and a["v"].endswith('"') for a in c["args"]):
+                f.add("escape_next_to_closing_quote")
+            if any(a["q"] and a["v"].startswith('"') for a in c["args"]):
+                f.add("escape_next_to_opening_quote")
             if any(a["q"] and a["v"][-1:] in (",", " ") and len(a["v"]) > 1 for a in c["args"]):
                 f.add("quoted_ends_comma_or_blank")
             if any(a["q"] and a["v"].strip(" \t") == "" for a in c["args"]):
@@ -485,10 +606,13 @@ def gen_case(rng):
         for c in [c for p_ in parts for c in p_["conds"]][:6]:
             conds.append({"text": c["text"], "expect": [denote_cond(c["ast"], v["flavor"], v["types"]) for v in envs]})
     expect = [denote_table(items, v["flavor"], v["types"]) for v in envs]
+    expect_opts = [denote_opts(items, v["flavor"], v["types"]) for v in envs]
     if r >= 0.88:
         text = malform(rng, text)
-        kind, expect, features, parts = "malformed", None, features | {"malformed"}, None
+        kind, expect, expect_opts, features, parts = "malformed", None, None, features | {"malformed"}, None
     case = {"kind": kind, "text": text, "envs": envs, "expect": expect, "conds": conds, "features": sorted(features)}
+    if expect_opts is not None:
+        case["expect_opts"] = expect_opts
     if parts:
         case["parts"] = parts
     return case
@@ -501,6 +625,7 @@ def sub_case(case, parts, envs):
              for p_ in parts for c in p_["conds"]][:6]
     return {"kind": case["kind"], "text": join_parts([p_["lines"] for p_ in parts]), "envs": envs,
             "expect": [denote_table(items, v["flavor"], v["types"]) for v in envs], "conds": conds,
+            "expect_opts": [denote_opts(items, v["flavor"], v["types"]) for v in envs],
             "features": sorted(table_features(items) | (set(case["features"]) & {"trailing_comment", "keyword_case"})),
             "parts": parts}
 
@@ -542,8 +667,26 @@ def canon_action(a):
     return {"cmd": a.cmd, "args": list(a.args), "extra": {k: a.extra[k] for k in sorted(a.extra)}}
 
 
+class PdbTrap(Exception):
+    """raised instead of stopping in the debugger (`pdb.set_trace()` in library code)"""
+
+
+def _pdb_trap(*_a, **_k):
+    raise PdbTrap()
+
+
+def canon_chains(table):
+    """`Table._actions` as [[{"cond": text} | {"blk": [actions]}, ...], ...]"""
+    out = []
+    for lbb in table._actions:
+        out.append([{"cond": x} if isinstance(x, str) else {"blk": [canon_action(a) for a in x]} for x in lbb])
+    return out
+
+
 def run_impl(case):
-    """Returns {"table": [per env: list of actions | {"err": type}], "conds": [[per env: bool | {"err"}]]}."""
+    """Returns {"table": [per env: list of actions | {"err": type}], "conds": [[per env: bool | {"err"}]],
+    "opts": [per env: sorted [k, v] pairs of getDeclareOptions | {"err"}], "chains": Table._actions | {"err"},
+    "rewrite": the lines Table._rewrite returns | {"err"}}."""
     global _scratch
     eups = common.import_eups()
     import eups.hooks as hooks
@@ -560,6 +703,8 @@ def run_impl(case):
     with open(path, "w") as f:
         f.write(case["text"])
     outs = []
+    import pdb
+    pdb.set_trace = _pdb_trap
     with contextlib.redirect_stderr(io.StringIO()), contextlib.redirect_stdout(io.StringIO()):
         try:
             prod = Product(PRODUCT, "1.0", flavor="Linux", dir="/nowhere/foo")
@@ -567,6 +712,24 @@ def run_impl(case):
             err = None
         except Exception as ex:  # noqa
             err = {"err": type(ex).__name__}
+        chains = err if err else canon_chains(table)
+        try:
+            with open(path) as f:
+                rewritten = [l for _n, l in Table(None)._rewrite(f.readlines())]
+        except Exception as ex:  # noqa
+            rewritten = {"err": type(ex).__name__}
+        opts = []
+        for v in case["envs"]:
+            if err:
+                opts.append(err)
+                continue
+            try:
+                d = table.getDeclareOptions(v["flavor"], list(v["types"]))
+                opts.append(sorted([k, x] for k, x in d.items()))
+            except RecursionError:
+                opts.append({"err": "RecursionError"})
+            except Exception as ex:  # noqa
+                opts.append({"err": type(ex).__name__})
         for v in case["envs"]:
             if err:
                 outs.append(err)
@@ -590,7 +753,7 @@ def run_impl(case):
                 except Exception as ex:  # noqa
                     row.append({"err": type(ex).__name__})
             couts.append(row)
-    return {"table": outs, "conds": couts}
+    return {"table": outs, "conds": couts, "opts": opts, "chains": chains, "rewrite": rewritten}
 
 
 def run_impl_chunk(cases):
@@ -606,6 +769,10 @@ def run_impl_chunk(cases):
 # runs the model of the tree *without* the other repairs, to validate the `…Pinned` definitions against an
 # unrepaired checkout
 _VARIANT = os.environ.get("C11_VARIANT")
+
+
+# C11_TRAP=1: the model of getDeclareOptions as pinned (debugger trap on chains of more than seven branches, D111)
+_TRAP = bool(os.environ.get("C11_TRAP"))
 
 
 def _variant():
@@ -627,6 +794,17 @@ def model_requests(case):
         for v in case["envs"]:
             reqs.append({"m": "c11", "op": "cond" if not var or var["d3"] else "cond_pinned", "text": c["text"],
                          "flavor": v["flavor"], "types": v["types"]})
+    for v in case["envs"]:
+        r = {"m": "c11", "op": "declopts", "text": case["text"], "flavor": v["flavor"], "types": v["types"], "pdir": PDIR,
+             "trap": _TRAP}
+        if var:
+            r["variant"] = var
+        reqs.append(r)
+    for op in ("parse", "rewrite"):
+        r = {"m": "c11", "op": op, "text": case["text"], "pdir": PDIR}
+        if var:
+            r["variant"] = var
+        reqs.append(r)
     return reqs
 
 
@@ -645,7 +823,13 @@ def model_out(case, answers):
     conds = []
     for i, _c in enumerate(case["conds"]):
         conds.append([conv(a, "value") for a in answers[n + i * n: n + (i + 1) * n]])
-    return {"table": table, "conds": conds}
+    k = n + len(case["conds"]) * n
+    opts = []
+    for a in answers[k:k + n]:
+        o = conv(a, "opts")
+        opts.append(sorted(o) if isinstance(o, list) else o)
+    return {"table": table, "conds": conds, "opts": opts, "chains": conv(answers[k + n], "chains"),
+            "rewrite": conv(answers[k + n + 1], "lines")}
 
 
 def unmodelled(x):
@@ -675,6 +859,11 @@ def oracle(case, impl):
             if got != want:
                 cond_bad.add(i)
                 yield ("cond", None, i, "condition %r for %s: %r, its truth table says %r" % (c["text"], case["envs"][i], got, want))
+    for i, want in enumerate(case.get("expect_opts") or []):
+        got = impl["opts"][i]
+        if want is not None and got != want:
+            yield ("declare_options", None, i, "for %s the declareOptions commands of the table declare %s, getDeclareOptions returns %s"
+                   % (case["envs"][i], json.dumps(want), json.dumps(got)))
     if case["expect"] is None:
         return
     for i, (got, want) in enumerate(zip(impl["table"], case["expect"])):
@@ -701,7 +890,8 @@ def corpus_cases():
 
 
 def public(case):
-    return {k: case[k] for k in ("kind", "text", "envs", "expect", "conds", "features", "parts", "shrunk_from_items") if k in case}
+    return {k: case[k] for k in ("kind", "text", "envs", "expect", "expect_opts", "conds", "features", "parts", "shrunk_from_items")
+            if k in case}
 
 
 MAX_SHRINKS = 6
@@ -742,11 +932,22 @@ def evaluate(ctx, cases):
             if dec:
                 ctx.hist("model_declined")
         mo_cmp = {"table": [b if not unmodelled(b) else a for a, b in zip(io_["table"], mo["table"])],
-                  "conds": [[b if not unmodelled(b) else a for a, b in zip(ra, rb)] for ra, rb in zip(io_["conds"], mo["conds"])]}
+                  "conds": [[b if not unmodelled(b) else a for a, b in zip(ra, rb)] for ra, rb in zip(io_["conds"], mo["conds"])],
+                  "opts": [b if not unmodelled(b) else a for a, b in zip(io_["opts"], mo["opts"])],
+                  "chains": mo["chains"] if not unmodelled(mo["chains"]) else io_["chains"],
+                  "rewrite": mo["rewrite"]}
+        for o in io_["opts"]:
+            ctx.hist("declare_options=" + (o["err"] if isinstance(o, dict) else "none" if not o else "some"))
         if mo_cmp["table"] != io_["table"]:
             ctx.disagree("actions", inp, io_, mo)
         elif mo_cmp["conds"] != io_["conds"]:
             ctx.disagree("condition_value", inp, io_, mo)
+        elif mo_cmp["rewrite"] != io_["rewrite"]:
+            ctx.disagree("rewritten_lines", inp, io_, mo)
+        elif mo_cmp["chains"] != io_["chains"]:
+            ctx.disagree("parsed_chains", inp, io_, mo)
+        elif mo_cmp["opts"] != io_["opts"]:
+            ctx.disagree("declare_options", inp, io_, mo)
         fails = list(oracle(c, io_))
         if fails and c.get("parts") and ctx.histogram.get("shrunk", 0) < MAX_SHRINKS:
             # report a reduced input: fewest items / one environment that still fail the same clause
@@ -874,9 +1075,16 @@ def run(ctx):
             raise common.InfraError("the model declined %d of %d cases" % (h.get("model_declined", 0), ctx.evaluations))
         if done >= 1000:
             for need in ("feature=else_if", "feature=else", "feature=empty_branch", "feature=quoted_arg", "feature=legacy",
-                         "feature=cond_depth=2", "types=0", "types=2", "feature=first_and_last_quoted"):
+                         "feature=cond_depth=2", "types=0", "types=2", "feature=first_and_last_quoted",
+                         "feature=declare_options", "declare_options=some", "feature=branches>=8"):
                 if not h.get(need):
                     raise common.InfraError("degenerate distribution: no case with " + need)
+            # argument shapes where the order of the tokeniser's steps is observable: a floor for each
+            for need in ("feature=lone_quoted_with_escape", "feature=lone_quoted_with_escape_and_commas_or_blank_runs",
+                         "feature=whole_list_quoted_commas_or_blank_runs", "feature=lone_quoted_padded", "feature=escape_in_first_arg",
+                         "feature=escape_in_last_arg", "feature=escape_next_to_closing_quote", "feature=escape_next_to_opening_quote"):
+                if h.get(need, 0) < 10:
+                    raise common.InfraError("degenerate distribution: %d cases with %s (floor 10 per 1000 tables)" % (h.get(need, 0), need))
 
 
 def replay(ctx, rp):
